@@ -187,6 +187,14 @@ theorem C13_warning_iff_rejected {α : Type} [Arith α] (c : Conv α) (alpha : C
     entryWarns c alpha key v = true ↔ ∃ k, StdKey.fromStr key = some k ∧ accessorGives c alpha k v = false :=
   entryWarns_iff c alpha key v
 
+/-- …which, by the equalities above, means: exactly on the standard keys whose value is outside the documented
+    forms (`Spec.Accepts`: servings, tags, time / prep time / cook time, title, description, locale, author, source
+    as specified; the remaining keys accept every value) -/
+theorem C13_warning_iff_outside_forms (c : Conv Rat) (hr : TimeRatiosNonzero c) (alpha : Char → Bool)
+    (hcolon : alpha ':' = false) (key : Str) (v : Y) :
+    entryWarns c alpha key v = true ↔ ∃ k, StdKey.fromStr key = some k ∧ ¬ Spec.Accepts c alpha k v :=
+  entryWarns_iff_outside c hr alpha hcolon key v
+
 /-- what is stored for scaling is what `as_servings` returns -/
 theorem C13_servings_stored {α : Type} [Arith α] (c : Conv α) (alpha : Char → Bool) (v : Y) (l : List Nat) :
     checkStdEntry c alpha .servings v = some (some l) ↔ valueAsServings v = some l :=
